@@ -8,7 +8,7 @@ from typing import Dict, List, Optional, Tuple
 from .. import algebra as A
 from ..abseval import (Cond, Const, Ctx, Evaluator, Inst, Leaf, NONE, Raised, Scalar, State, S, SymObj, Tup, Undecided,
                        cond_leaves, leaves)
-from ..cfg import CFG
+from ..cfg import CFG, Node, defs_of
 from ..check import Variant
 from ..loader import AnalysisError, Program, dotted, norm, parent
 from . import common as C
@@ -444,29 +444,75 @@ def run(prog: Program, rep, thorough: bool) -> None:
     else:
         rep.fail('C15.R2', tc.path, rec[0][1].lineno, F.func.qualname, 'clear-order',
                  'should_record is not preceded by clear_current_flag in every iteration: flags of an earlier sample leak')
-    if any(n.id in dom[F.loop_head.id] and not F.in_loop(n) for n, _c in sup):
-        c = sup[0][1]
+    def reaches_avoiding(src: Node, dst: Node, avoid: set) -> bool:
+        """is there a path src -> dst that passes none of the nodes in `avoid` (src itself excluded)"""
+        seen, work = {src.id}, [src]
+        while work:
+            n_ = work.pop()
+            for m_, _lab in n_.succ:
+                if m_.id in avoid or m_.id in seen:
+                    continue
+                if m_.id == dst.id:
+                    return True
+                seen.add(m_.id)
+                work.append(m_)
+        return False
+    # the filter is armed before the loop: wherever it is built (possibly only when rows are requested), no path from the
+    # construction reaches the loop without passing setup_seen_zero, and no setup runs inside the loop
+    builds = [n for n in F.cfg.nodes if n.ast is not None and n.kind == 'stmt' and not F.in_loop(n)
+              and any(isinstance(c, ast.Call) and (dotted(c.func) or '').split('.')[-1] == '_TrajectoryDataFilter' for c in ast.walk(n.ast))]
+    sup_out = [(n, c) for n, c in sup if not F.in_loop(n)]
+    if any(F.in_loop(n) for n, _c in sup):
+        n_, c = next((n, c) for n, c in sup if F.in_loop(n))
+        rep.fail('C15.R2', tc.path, c.lineno, F.func.qualname, 'setup-order',
+                 'setup_seen_zero runs inside the loop: latches are re-armed')
+    elif not sup_out:
+        rep.fail('C15.R2', tc.path, F.loop.lineno, F.func.qualname, 'setup-order',
+                 'setup_seen_zero does not precede the loop: the latches are never armed')
+    elif not builds:
+        raise AnalysisError('_integrate: the construction of the record filter before the loop was not found')
+    elif any(reaches_avoiding(bn, F.loop_head, {n.id for n, _c in sup_out}) for bn in builds):
+        rep.fail('C15.R2', tc.path, F.loop.lineno, F.func.qualname, 'setup-order',
+                 'a path from the construction of the filter reaches the loop without setup_seen_zero: the latches are not armed')
+    else:
+        c = sup_out[0][1]
         want = [f'{F.P}.y', 'self.barrel_elevation', 'self.look_angle']
-        if [norm(x) for x in c.args] == want:
+        if all([norm(x) for x in c_.args] == want for _n, c_ in sup_out):
             rep.ok('C15.R2', tc.where(c), 'setup_seen_zero(initial height, barrel elevation, look angle) before the loop')
         else:
             rep.fail('C15.R2', tc.path, c.lineno, F.func.qualname, 'setup-args',
                      f'setup_seen_zero is called with {[norm(x) for x in c.args]}, expected {want}')
-    else:
-        rep.fail('C15.R2', tc.path, F.loop.lineno, F.func.qualname, 'setup-order',
-                 'setup_seen_zero does not precede the loop (or runs inside it): latches are re-armed')
     # the recorded row carries the current flags
     site = None
     for call in F.row_calls:
         n = F.cfg.node_of(call)
-        if n is not None and rn.id in dom[n.id] and F.in_loop(n):
-            site = call
+        if n is not None and F.in_loop(n) and (rn.id in dom[n.id] or (reaches_avoiding(rn, n, {F.loop_head.id}) or False)):
+            if site is None or rn.id in dom[n.id]:
+                site = call
     if site is None:
         raise AnalysisError('_integrate: row site fed by should_record not found')
     fl = F.row_args(site).get('flag')
     recv = norm(rec[0][1].func.value)
+    sn = F.cfg.node_of(site)
     if fl is not None and norm(fl) == f'{recv}.current_flag':
         rep.ok('C15.R2', tc.where(site), f'recorded rows carry {recv}.current_flag')
+    elif isinstance(fl, ast.Name) and sn is not None:
+        # through a local: it is read from the filter after should_record, on every path from there to the row
+        reads = [n for n in F.cfg.nodes if n.ast is not None and n.kind == 'stmt' and fl.id in defs_of(n)
+                 and isinstance(n.ast, (ast.Assign, ast.AnnAssign)) and n.ast.value is not None
+                 and norm(n.ast.value) == f'{recv}.current_flag']
+        others = [n for n in F.cfg.nodes if n.ast is not None and fl.id in defs_of(n) and n not in reads]
+        if not reads:
+            rep.fail('C15.R2', tc.path, site.lineno, F.func.qualname, 'row-flag',
+                     f'recorded rows carry `{norm(fl)}` instead of the filter\'s current flags')
+        elif all(rn.id in dom[n.id] and F.in_loop(n) for n in reads) \
+                and not reaches_avoiding(rn, sn, {n.id for n in reads} | {F.loop_head.id}) \
+                and not any(any(reaches_avoiding(r_, o_, {F.loop_head.id}) or r_ is o_ for r_ in reads)
+                            and reaches_avoiding(o_, sn, {F.loop_head.id} | {n.id for n in reads}) for o_ in others):
+            rep.ok('C15.R2', tc.where(site), f'recorded rows carry {recv}.current_flag, read into `{fl.id}` after should_record')
+        else:
+            rep.undecided('C15.R2', tc.where(site), f'row flag `{fl.id}`',
+                          'the local holds the filter\'s flags on some paths; which definition reaches the row is path-dependent')
     else:
         rep.fail('C15.R2', tc.path, site.lineno, F.func.qualname, 'row-flag',
                  f'recorded rows carry `{norm(fl) if fl is not None else None}` instead of the filter\'s current flags')
